@@ -87,8 +87,15 @@ def m_fresh_peer(it, a, ty, callee):
     return Adt('peer_id::PeerId', 0, [peer_mh(Int(it.sym('local_peer', 8, internal=True), 8))])
 
 
+def m_random_peer(it, a, ty, callee):
+    # PeerId::random(): an id different from every id the harnesses use (they stay below 255)
+    from .maddr import peer_mh
+    return Adt('peer_id::PeerId', 0, [peer_mh(255)])
+
+
 def install(it):
     A = it.add_model
+    A(r'peer_id::PeerId::random', m_random_peer)
     A(r"<std::string::String as std::convert::From<std::borrow::Cow<'_, str>>>::from", lambda it, a, ty, c: a[0])
     A(r'std::net::SocketAddr::new', lambda it, a, ty, c: Adt('std::net::SocketAddr', 0, [a[0], a[1]]))
     A(r'<.* as std::string::ToString>::to_string', m_extern('string'))
